@@ -15,6 +15,7 @@ Plan gen_c16(uint64_t seed, int tier)
   p.cfg["fo"] = fo;
   gen_sched(p, r);
   gen_backend(p, r);
+  gen_backend_mode(p, r);
   p.cfg["transit_cap"] = r.pick<int64_t>({1, 2, 4}); // small: transit slots are reused by statements of different kinds
   gen_loggers_and_sinks(p, r, 3, 3, false);
   int nsinks = static_cast<int>(p.cfg["nsinks"]);
